@@ -81,7 +81,8 @@ def finish(mod, pid, tier, seed, reports, aux, wall):
     known = load_known(pid)
     agg = {"cells": len(reports), "paths": 0, "obligations": 0, "proved": 0, "refuted": 0, "unknown": 0, "queries": 0,
            "solver_s": 0.0, "trace_s": 0.0, "pruned_branches": 0, "unknown_branches": 0, "nontrivial": 0, "cuts": 0,
-           "defined_assumed": 0, "n_checked_ops": 0, "tainted": 0}
+           "defined_assumed": 0, "n_checked_ops": 0, "tainted": 0, "inplace_writes": 0, "owned_write_checks": 0, "paths_with_writes": 0,
+           "tie_flips": 0, "illconditioned": 0}
     by_mode, ops, functions = {}, {}, set()
     inconclusive, errors, violations, known_hits, samples = [], [], [], [], []
     for r in reports:
@@ -152,6 +153,9 @@ def finish(mod, pid, tier, seed, reports, aux, wall):
         status = 1
 
     desc = mod.describe(tier) if hasattr(mod, "describe") else {}
+    if getattr(mod, "COUNT_WRITE_PATHS", False):
+        # mutation monitor: a non-trivial case is an explored path on which the library issued in-place / out= writes
+        agg["nontrivial"] += agg["paths_with_writes"]
     evidence = {
         "property_id": pid,
         "tier": tier,
@@ -184,6 +188,10 @@ def finish(mod, pid, tier, seed, reports, aux, wall):
             "definedness_conditions_assumed": agg["defined_assumed"],
             "ops_cross_checked_against_real_kernel": agg["n_checked_ops"],
             "tainted_paths": agg["tainted"],
+            "inplace_or_out_writes_monitored": agg["inplace_writes"],
+            "writes_into_caller_owned_storage_compared": agg["owned_write_checks"],
+            "float_comparison_tie_flips": agg["tie_flips"],
+            "illconditioned_witness_paths": agg["illconditioned"],
             "functions_encoded": sorted(functions),
             "aten_ops": dict(sorted(ops.items(), key=lambda kv: -kv[1])),
             "bounds": desc.get("bounds", {}),
